@@ -365,7 +365,159 @@ fn socket_cases(tier: &str, seed: u64) -> Vec<Case> {
     v.push(c);
     v.push(live_resolver(tier, seed));
     v.push(live_discovery(tier, seed));
+    v.extend(live_tokio(tier, seed));
     v
+}
+
+/// the tokio flavour of the three services over loopback multicast, on one current-thread runtime: the
+/// responder must still answer after hostile datagrams, the discovery must still discover (and its store
+/// stay usable), the resolver must return
+fn live_tokio(tier: &str, seed: u64) -> Vec<Case> {
+    use simple_mdns::async_discovery::{OneShotMdnsResolver, ServiceDiscovery, SimpleMdnsResponder};
+    use std::net::UdpSocket;
+    use std::time::{Duration, Instant};
+    let rt = match tokio::runtime::Builder::new_current_thread().enable_all().build() { Ok(r) => r, Err(_) => return vec![Case::oracle_only().tag("sockets-tokio").tag("sockets-not-exercised")] };
+    let hostile: Vec<Vec<u8>> = hostile_messages(tier, seed ^ 0xA51).into_iter().filter(|(b, _)| b.len() <= 1400).take(if tier == "thorough" { 1500 } else { 250 }).map(|x| x.0).collect();
+    let seed2 = seed;
+    let res = std::panic::catch_unwind(std::panic::AssertUnwindSafe(|| rt.block_on(async move {
+        let mut out: Vec<Case> = vec![];
+        let dest = "224.0.0.251:5353";
+        let sock = match UdpSocket::bind("0.0.0.0:0") { Ok(s) => s, Err(_) => return vec![Case::oracle_only().tag("sockets-tokio").tag("sockets-not-exercised")] };
+        sock.set_nonblocking(true).ok();
+        let nap = |ms: u64| tokio::time::sleep(Duration::from_millis(ms));
+        // ---- responder
+        {
+            let mut c = Case::oracle_only().tag("sockets-tokio").tag("tokio-responder");
+            let mut responder = SimpleMdnsResponder::new(10);
+            let name = Name::new_unchecked("verif-c14t._tcp.local");
+            responder.add_resource(ResourceRecord::new(name.clone(), CLASS::IN, 10, RData::A(A { address: 0x7F000001 }))).await;
+            nap(300).await;
+            let mut q = Packet::new_query(0x1415);
+            q.questions.push(Question::new(name.clone(), TYPE::A.into(), CLASS::IN.into(), true));
+            let qbytes = q.build_bytes_vec().unwrap();
+            let mut baseline = false;
+            let mut after = false;
+            for round in 0..2 {
+                let mut answered = false;
+                'tries: for _ in 0..6 {
+                    let _ = sock.send_to(&qbytes, dest);
+                    let deadline = Instant::now() + Duration::from_millis(400);
+                    let mut buf = [0u8; 9000];
+                    while Instant::now() < deadline {
+                        match sock.recv_from(&mut buf) {
+                            Ok((n, _)) => { if let Ok(p) = Packet::parse(&buf[..n]) { if p.id() == 0x1415 && !p.answers.is_empty() { answered = true; break 'tries; } } }
+                            Err(_) => nap(10).await,
+                        }
+                    }
+                }
+                if round == 0 {
+                    baseline = answered;
+                    if !answered { break; }
+                    let mut n = 0;
+                    for d in hostile.iter() { let _ = sock.send_to(d, dest); n += 1; if n % 25 == 0 { nap(5).await; } }
+                    for d in [vec![], vec![0u8; 3], vec![0xFFu8; 11]] { let _ = sock.send_to(&d, dest); }
+                    nap(100).await;
+                } else { after = answered; }
+            }
+            if !baseline { c = c.tag("sockets-not-exercised"); }
+            else if after { c = c.tag("sockets-alive"); }
+            else { c = c.fail("responder-wedged", format!("tokio flavour: the responder answered before but not after {} hostile datagrams", hostile.len())); }
+            out.push(c);
+        }
+        // ---- discovery
+        {
+            let mut c = Case::oracle_only().tag("sockets-tokio").tag("tokio-discovery");
+            let me = InstanceInformation::new("me".to_string()).with_ip_address(IpAddr::V4(Ipv4Addr::new(127, 0, 0, 1))).with_port(8016);
+            match ServiceDiscovery::new(me, "_verif14t._tcp.local", 60) {
+                Err(_) => { c = c.tag("sockets-not-exercised"); }
+                Ok(sd) => {
+                    let service = Name::new_unchecked("_verif14t._tcp.local");
+                    let announce = |label: &str, ttl: u32, flush: bool| -> Vec<u8> {
+                        let full = mk_name(&[label.as_bytes().to_vec(), b"_verif14t".to_vec(), b"_tcp".to_vec(), b"local".to_vec()]);
+                        let mut p = Packet::new_reply(0);
+                        let mut recs = vec![
+                            ResourceRecord::new(service.clone(), CLASS::IN, ttl, RData::PTR(PTR(full.clone()))),
+                            ResourceRecord::new(full.clone(), CLASS::IN, ttl, RData::SRV(simple_dns::rdata::SRV { priority: 0, weight: 0, port: 8017, target: full.clone() })),
+                            ResourceRecord::new(full.clone(), CLASS::IN, ttl, RData::A(A { address: 0x7F000002 })),
+                        ];
+                        for r in recs.iter_mut() { r.cache_flush = flush; }
+                        for r in recs { p.answers.push(r); }
+                        p.build_bytes_vec_compressed().unwrap()
+                    };
+                    nap(200).await;
+                    let mut base = false;
+                    let deadline = Instant::now() + Duration::from_secs(3);
+                    while Instant::now() < deadline && !base {
+                        let _ = sock.send_to(&announce("basepeer", 120, false), dest);
+                        nap(120).await;
+                        base = sd.get_known_services().await.iter().any(|i| i.unescaped_instance_name() == "basepeer");
+                    }
+                    if !base { c = c.tag("sockets-not-exercised"); }
+                    else {
+                        let mut r = Rng::new(seed2 ^ 0xD17);
+                        let mut n = 0;
+                        for i in 0..(if hostile.len() > 1000 { 600 } else { 120 }) {
+                            let label = *r.pick(&["peer1", "My Printer", "x.y", "peer2"]);
+                            let d = announce(label, *r.pick(&[0u32, 0, 1, 120, 0x8000_0000, u32::MAX]), i % 3 == 0);
+                            let _ = sock.send_to(&d, dest);
+                            n += 1;
+                            if n % 20 == 0 { nap(5).await; }
+                        }
+                        for d in hostile.iter().take(150) { let _ = sock.send_to(d, dest); }
+                        nap(150).await;
+                        let deadline = Instant::now() + Duration::from_secs(8);
+                        let mut found = false;
+                        while Instant::now() < deadline && !found {
+                            let _ = sock.send_to(&announce("plainpeer", 120, false), dest);
+                            nap(120).await;
+                            found = match tokio::time::timeout(Duration::from_secs(2), sd.get_known_services()).await { Ok(k) => k.iter().any(|i| i.unescaped_instance_name() == "plainpeer"), Err(_) => false };
+                        }
+                        if found { c = c.tag("sockets-alive"); } else { c = c.fail("discovery-wedged", format!("tokio flavour: an announcement sent after {} hostile ones is not discovered within 8 s", n)); }
+                    }
+                }
+            }
+            out.push(c);
+        }
+        // ---- resolver
+        {
+            let mut c = Case::oracle_only().tag("sockets-tokio").tag("tokio-resolver");
+            match OneShotMdnsResolver::new() {
+                Err(_) => { c = c.tag("sockets-not-exercised"); }
+                Ok(mut resolver) => {
+                    resolver.set_query_timeout(Duration::from_millis(900));
+                    let name = Name::new_unchecked("verif-res14t._tcp.local");
+                    let sender = async {
+                        nap(150).await;
+                        let mut n = 0;
+                        for d in hostile.iter() {
+                            if d.len() < 12 { continue; }
+                            let mut d = d.clone();
+                            d[0] = 0; d[1] = 0; d[2] |= 0x80; if d[6] == 0 && d[7] == 0 { d[7] = 1; }
+                            let _ = sock.send_to(&d, dest);
+                            n += 1;
+                            if n % 25 == 0 { nap(3).await; }
+                        }
+                        let mut p = Packet::new_reply(0);
+                        p.answers.push(ResourceRecord::new(name.clone(), CLASS::IN, 5, RData::A(A { address: 0x7F000009 })));
+                        let _ = sock.send_to(&p.build_bytes_vec_compressed().unwrap(), dest);
+                    };
+                    let query = tokio::time::timeout(Duration::from_secs(8), resolver.query_service_address("verif-res14t._tcp.local"));
+                    let (ans, _) = tokio::join!(query, sender);
+                    match ans {
+                        Err(_) => { c = c.fail("resolver-wedged", "tokio flavour: query_service_address did not return within 8 s of a 0.9 s timeout".into()); }
+                        Ok(Ok(Some(a))) => { c = c.tag("resolver-answered"); if format!("{:?}", a) != "127.0.0.9" { c = c.fail("resolver-answer", format!("answered {:?} for a name whose only address record is 127.0.0.9", a)); } }
+                        Ok(_) => { c = c.tag("resolver-no-answer"); }
+                    }
+                }
+            }
+            out.push(c);
+        }
+        out
+    })));
+    match res {
+        Ok(v) => v,
+        Err(_) => vec![Case::oracle_only().tag("sockets-tokio").fail("tokio-service-panic", "a tokio-flavour service call panicked while hostile datagrams arrived".into())],
+    }
 }
 
 /// the one-shot resolver over loopback multicast: while a query is pending, datagrams that pass its
@@ -478,6 +630,50 @@ fn live_discovery(tier: &str, seed: u64) -> Case {
     c
 }
 
+/// two `ServiceDiscovery` instances of one service on loopback multicast: the second must report the
+/// first exactly (name, address, port, attributes), not itself, and stop reporting it soon after the
+/// first withdraws (`remove_service_from_discovery` announces with cache-flush, i.e. one second of life)
+fn live_pair() -> Case {
+    use simple_mdns::sync_discovery::ServiceDiscovery;
+    use std::time::{Duration, Instant};
+    let mut c = Case::oracle_only().tag("sockets-pair");
+    let res = std::panic::catch_unwind(|| -> std::result::Result<&'static str, String> {
+        let svc = "_verif15p._tcp.local";
+        let a = InstanceInformation::new("alpha-one".to_string()).with_ip_address(IpAddr::V4(Ipv4Addr::new(10, 1, 2, 3))).with_port(8101)
+            .with_attribute("path".to_string(), Some("/x".to_string())).with_attribute("flag".to_string(), None);
+        let b = InstanceInformation::new("beta".to_string()).with_ip_address(IpAddr::V4(Ipv4Addr::new(10, 1, 2, 4))).with_port(8102);
+        let mut sa = match ServiceDiscovery::new(a.clone(), svc, 60) { Ok(s) => s, Err(_) => return Ok("not-exercised") };
+        let sb = match ServiceDiscovery::new(b.clone(), svc, 60) { Ok(s) => s, Err(_) => return Ok("not-exercised") };
+        let deadline = Instant::now() + Duration::from_secs(4);
+        let mut seen = None;
+        while Instant::now() < deadline && seen.is_none() {
+            sa.announce(false);
+            std::thread::sleep(Duration::from_millis(150));
+            let known = sb.get_known_services();
+            if known.iter().any(|i| i.unescaped_instance_name() == "beta") { return Err("a discovery reports its own instance".into()); }
+            seen = known.into_iter().find(|i| i.unescaped_instance_name() == "alpha-one");
+        }
+        let got = match seen { Some(g) => g, None => return Ok("not-exercised") };
+        if inst_text(&got, "alpha-one") != inst_text(&a, "alpha-one") { return Err(format!("advertised {} discovered {}", inst_text(&a, "alpha-one"), inst_text(&got, "alpha-one"))); }
+        sa.remove_service_from_discovery();
+        let deadline = Instant::now() + Duration::from_millis(3500);
+        let mut gone = false;
+        while Instant::now() < deadline && !gone {
+            std::thread::sleep(Duration::from_millis(200));
+            gone = !sb.get_known_services().iter().any(|i| i.unescaped_instance_name() == "alpha-one");
+        }
+        if !gone { return Err("an instance withdrawn with remove_service_from_discovery is still reported 3.5 s later".into()); }
+        Ok("alive")
+    });
+    match res {
+        Ok(Ok("alive")) => { c = c.tag("sockets-alive"); }
+        Ok(Ok(_)) => { c = c.tag("sockets-not-exercised"); }
+        Ok(Err(m)) => { c = c.fail("live-discovery-differs", m); }
+        Err(_) => { c = c.fail("live-discovery-panic", "a ServiceDiscovery call panicked".into()); }
+    }
+    c
+}
+
 fn inst_text(i: &InstanceInformation, name: &str) -> String {
     let ips: Vec<String> = i.ip_addresses.iter().map(|ip| match ip { IpAddr::V4(x) => format!("4:{}", u32::from(*x)), IpAddr::V6(x) => format!("6:{}", u128::from(*x)) }).collect();
     let ports: Vec<String> = i.ports.iter().map(|p| p.to_string()).collect();
@@ -527,6 +723,16 @@ pub fn c15(tier: &str, seed: u64) -> Vec<Case> {
                 inst = inst.with_ip_address(IpAddr::V6(Ipv6Addr::from(a)));
             }
             for _ in 0..r.below(3) { inst = inst.with_port(8000 + r.below(3) as u16); }
+            // address and port given together
+            if r.chance(1, 4) { inst = inst.with_socket_address(std::net::SocketAddr::new(IpAddr::V4(Ipv4Addr::from(0x0A000000 + r.below(4) as u32)), 8000 + r.below(3) as u16)); }
+            {
+                let pairs: Vec<std::net::SocketAddr> = inst.get_socket_addresses().collect();
+                let mut cc = Case::oracle_only().tag("socket-addresses");
+                if pairs.len() != inst.ip_addresses.len() * inst.ports.len() || inst.ip_addresses.iter().any(|ip| inst.ports.iter().any(|p| !pairs.contains(&std::net::SocketAddr::new(*ip, *p)))) {
+                    cc = cc.fail("socket-addresses", format!("get_socket_addresses yields {} pairs for {} addresses and {} ports", pairs.len(), inst.ip_addresses.len(), inst.ports.len()));
+                }
+                v.push(cc);
+            }
             for _ in 0..r.below(4) {
                 let key = if r.chance(1, 30) { String::new() } else { r.pick(&["path", "v", "é", "k k", "a;b"]).to_string() };
                 has_empty_key |= key.is_empty();
@@ -612,6 +818,7 @@ pub fn c15(tier: &str, seed: u64) -> Vec<Case> {
         }
         v.push(c);
     }
+    v.push(live_pair());
     // escaping then unescaping an instance name returns the original
     for _ in 0..(if thorough { 20000 } else { 2000 }) {
         let len = r.below(10) as usize;
